@@ -10,7 +10,7 @@ func TestDevCount(t *testing.T) {
 	if os.Getenv("C04_DEV") != "count" {
 		t.Skip()
 	}
-	for _, sp := range spaces(true) {
+	for _, sp := range spaces(os.Getenv("C04_T") != "") {
 		ps := sp.programs()
 		fmt.Println(sp.Name, len(ps))
 		for i := 0; i < len(ps); i += len(ps)/8 + 1 {
@@ -33,7 +33,7 @@ func TestDevProbe(t *testing.T) {
 	progs := []string{
 		"A[]", "A[E]", "A[EPDX]", "A[ET{EBf[E!]E}{E}E]", "A[T{Bf[ECf[E]!]}{}]", "A[Bf[E!]]", "A[E#]", "A[E~]",
 		"A[$gB[E]]", "A[T{$gB[E!]}{E}]", "A[$sB[EX]]", "A[$nB[E]X]", "A[F]", "A[T{Bf[F!]}{}]", "A[Bd[E]]", "A[B7[E]]", "A[B5[P]]", "A[Bd[X]]",
-		"A[T{Bd[T{Cf[E!]}{E}!]}{E}]", "A[T{Af[E!]}{}]", "A[T{!}{Bf[E]}E]",
+		"A[T{Bd[T{Cf[E!]}{E}!]}{E}]", "A[T{Af[E!]}{}]", "A[T{!}{Bf[E]}E]", "A[K]", "A[KT{Bf[U!]}{}]", "A[U]", "A[T{Bf[Y!]}{}]", "A[Y]", "A[Y]", "A[T{Bd[N!]}{}]",
 	}
 	if p := os.Getenv("C04_PROG"); p != "" {
 		progs = []string{p}
@@ -45,7 +45,7 @@ func TestDevProbe(t *testing.T) {
 	defer rg.close()
 	for _, p := range progs {
 		ops := mustParse(p)
-		com := hasOp(ops, 'F')
+		com := needsCommittee(ops)
 		init, err := rg.initState()
 		if err != nil {
 			t.Fatal(err)
